@@ -226,7 +226,7 @@ def _check_real_pole_face(lon_deg, lat_deg, north):
     return None
 
 
-def make_box_pole(oid, n, north, tiers=("quick", "thorough"), cost=3):
+def make_box_pole(oid, n, north, tiers=("quick", "thorough"), cost=3, corner_at_pole=False):
     """the pole branch of _populate_face_latlon_bound: the face contains the pole (stub of _pole_point_inside_polygon), edges are abstract
     arcs, each edge may or may not pass through the pole (abstract answer of point_within_gca)"""
     sgn = 1 if north else -1
@@ -239,9 +239,14 @@ def make_box_pole(oid, n, north, tiers=("quick", "thorough"), cost=3):
         thru = [ctx.bool(f"through_pole_{i}") for i in range(n)]
         S = ctx.solver
         sep = sc.lift(1e-4)
+        ctx.const("corner_at_pole", corner_at_pole)
         for i in range(n):
             j = (i + 1) % n
-            S.add(lon[i] >= 0, lon[i] < sc.lift(2 * PI - 1e-3), lat[i] * sgn >= sc.lift(0.2), lat[i] * sgn <= sc.lift(1.5))
+            S.add(lon[i] >= 0, lon[i] < sc.lift(2 * PI - 1e-3))
+            if corner_at_pole and i == 0:
+                S.add(lat[i] == sc.lift(sgn * PI / 2))          # corner 0 sits exactly at the pole; its stored longitude is arbitrary
+            else:
+                S.add(lat[i] * sgn >= sc.lift(0.2), lat[i] * sgn <= sc.lift(1.5))
             far = z3.If(lat[i] * sgn <= lat[j] * sgn, lat[i], lat[j])
             S.add(z3.Or(ext[i] == far, ext[i] * sgn <= far * sgn - sep), ext[i] * sgn >= sc.lift(0.05))
         for i in range(n):
@@ -285,9 +290,10 @@ def make_box_pole(oid, n, north, tiers=("quick", "thorough"), cost=3):
         g["_pole_point_inside_polygon"] = lambda pole, edges: (pole == "North") == north
         g["point_within_gca"] = lambda *a, **k_: thru[cur["i"]]
         cart, ll = [], []
+        payload = lambda k_: [0.0, 0.0, float(sgn)] if (corner_at_pole and k_ == 0) else [1000.0 + k_, 0.0, 0.0]      # noqa: E731
         for i in range(n):
             j = (i + 1) % n
-            cart += [1000.0 + i, 0.0, 0.0, 1000.0 + j, 0.0, 0.0]
+            cart += payload(i) + payload(j)
             ll += [mk(lon[i]), mk(lat[i]), mk(lon[j]), mk(lat[j])]
         EC = symnp.SArr.new(cart, (n, 2, 3), None, symnp.float64)
         EL = symnp.SArr.new(ll, (n, 2, 2), None, symnp.float64)
@@ -307,18 +313,40 @@ def make_box_pole(oid, n, north, tiers=("quick", "thorough"), cost=3):
         llo, lhi = sc.z(box[1][0]), sc.z(box[1][1])
         sl = sc.lift(SL)
         pole_b, far_b = (bhi, blo) if north else (blo, bhi)
+        real_corners = [i for i in range(n) if not (corner_at_pole and i == 0)]
         ctx.prove("the latitude bound on the pole's side is the pole", pole_b == sc.lift(sgn * PI / 2))
         ctx.prove("the other latitude bound encloses every corner and every edge extreme",
-                  z3.And(*[z3.And(far_b * sgn <= lat[i] * sgn + sl, far_b * sgn <= ext[i] * sgn + sl) for i in range(n)]))
-        ctx.prove("and is attained by a corner or an edge extreme (tight)", z3.Or(*[z3.Or(_near(far_b, lat[i], sl), _near(far_b, ext[i], sl)) for i in range(n)]))
-        central = z3.And(*[z3.Not(sc.z(t)) for t in thru])
+                  z3.And(*[z3.And(far_b * sgn <= lat[i] * sgn + sl, far_b * sgn <= ext[i] * sgn + sl) for i in real_corners]))
+        ctx.prove("and is attained by a corner or an edge extreme (tight)", z3.Or(*[z3.Or(_near(far_b, lat[i], sl), _near(far_b, ext[i], sl)) for i in real_corners]))
+        central = z3.And(*[z3.Not(sc.z(t)) for t in thru]) if not corner_at_pole else z3.BoolVal(False)
         inside = lambda l: z3.If(llo <= lhi, z3.And(llo <= l + sl, l <= lhi + sl), z3.Or(l >= llo - sl, l <= lhi + sl))     # noqa: E731
-        ctx.prove("a pole strictly inside the face gives the full longitude circle; a pole on an edge gives an interval containing every corner longitude",
-                  z3.If(central, z3.And(llo == 0, lhi == sc.lift(2 * PI)), z3.And(*[inside(l) for l in lon])))
-        ctx.reachable("pole strictly inside", central)
-        ctx.reachable("an edge through the pole", z3.Not(central))
+        ctx.prove("a pole strictly inside the face gives the full longitude circle; a pole on the boundary gives an interval containing the longitude of every corner away from the pole",
+                  z3.If(central, z3.And(llo == 0, lhi == sc.lift(2 * PI)), z3.And(*[inside(lon[i]) for i in real_corners])))
+        ctx.prove("with the pole on the boundary both longitude bounds are longitudes of corners away from the pole (a corner at the pole has no longitude of its own)",
+                  z3.Or(central, z3.And(z3.Or(*[_near(llo, lon[i], sl) for i in real_corners]), z3.Or(*[_near(lhi, lon[i], sl) for i in real_corners]))))
+        if not corner_at_pole:
+            ctx.reachable("pole strictly inside", central)
+            ctx.reachable("an edge through the pole", z3.Not(central))
 
     def replay(v):
+        if corner_at_pole:
+            import uxarray as ux
+            import warnings
+            for stored in (200.0, 0.0, -100.0, 30.0):
+                for order in (0, 1, 2):
+                    pts = [(stored, sgn * 90.0), (10.0, sgn * 80.0), (50.0, sgn * 75.0)] + ([(30.0, sgn * 70.0)] if n == 4 else [])
+                    if n == 4:
+                        pts = [pts[0], pts[1], pts[3], pts[2]]
+                    if not north:
+                        pts = [pts[0]] + pts[1:][::-1]
+                    pts = pts[order:] + pts[:order]
+                    g = ux.Grid.from_topology(np.array([p[0] for p in pts]), np.array([p[1] for p in pts]), np.array([list(range(len(pts)))], dtype=np.intp), fill_value=F)
+                    with warnings.catch_warnings():
+                        warnings.simplefilter("ignore")
+                        b = np.degrees(np.asarray(g.bounds.values)[0])
+                    if abs(b[1][0] - 10.0) > 1e-6 or abs(b[1][1] - 50.0) > 1e-6:
+                        return f"face with a corner at the pole stored with longitude {stored}: corners {pts}, Grid.bounds longitude {b[1].tolist()} deg, the boundary spans [10, 50]"
+            return None
         # concretise: corners on a ring around the pole at the model's latitudes, longitudes spread over the full circle
         lat0 = [abs(float(x)) for x in v["lat"]]
         for shift in (0.0, 17.0, 181.0, 359.0 - 360.0 / n):
@@ -758,7 +786,8 @@ def obligations(tier):
     obs = [make_insert_contract("C13.insert.contract"), make_insert_pole("C13.insert.pole"), make_unique_points("C13.unique_points"), make_pole_split("C13.pole.split"), make_pole_count("C13.pole.count.3"),
            make_pole_count("C13.pole.count.4", 4),
            make_box_pole("C13.box.pole.north.3", 3, True), make_box_pole("C13.box.pole.south.3", 3, False),
-           make_box_pole("C13.box.pole.north.4", 4, True, tiers=("thorough",), cost=20), make_box("C13.box.3.plain", 3, "plain"), make_box("C13.box.3.wrap", 3, "wrap"),
+           make_box_pole("C13.box.pole.north.4", 4, True, tiers=("thorough",), cost=20),
+           make_box_pole("C13.box.polecorner.north.3", 3, True, corner_at_pole=True), make_box_pole("C13.box.polecorner.south.3", 3, False, corner_at_pole=True), make_box("C13.box.3.plain", 3, "plain"), make_box("C13.box.3.wrap", 3, "wrap"),
            make_box("C13.box.4.plain", 4, "plain", tiers=("thorough",), cost=20), make_box("C13.box.4.wrap", 4, "wrap", tiers=("thorough",), cost=20),
            make_edges("C13.edges.cartesian", "cartesian"), make_edges("C13.edges.lonlat", "lonlat")]
     return [o for o in obs if tier in o.tiers]
